@@ -2,3 +2,5 @@ import DDProofs.Sem
 import DDProofs.Canon
 import DDProofs.Ext
 import DDProofs.Inv
+import DDProofs.AutoLedger
+import DDProofs.AutoProofs
